@@ -139,6 +139,24 @@ def make_replay(pid, spec, r, f, tier):
                                'obligation': _ob(r, f), 'verifier_output': r.raw[-8000:], 'unit': r.name},
                               open(path, 'w'), indent=1)
                     return path, True
+    if spec.get('cex') in ('bx-builder', 'bx-resolver'):
+        exe, err = units.build_bx()
+        if exe:
+            cmd = [exe, 'builder-history', '--max-len', '6'] if spec['cex'] == 'bx-builder' else [exe, 'resolver']
+            rc, out, err2, wall, to = units._sh(cmd, 600)
+            try:
+                j = json.loads(out[:out.rindex('}') + 1]) if spec['cex'] == 'bx-builder' else json.loads(out[:out.index('\n}') + 2])
+            except Exception:
+                j = {}
+            v = j.get('violation') if spec['cex'] == 'bx-builder' else (j.get('violations') or None)
+            if v:
+                path = base + '.json'
+                json.dump({'kind': spec['cex'], 'property': pid, 'history': v.get('history') if isinstance(v, dict) else None,
+                           'clauses': v.get('clauses') if isinstance(v, dict) else v, 'obligation': _ob(r, f),
+                           'verifier_output': r.raw[-8000:], 'unit': r.name,
+                           'how': './check --replay <this file>: re-runs the concrete request sequence / the synthetic-resolver probe against /repo through the public API'},
+                          open(path, 'w'), indent=1)
+                return path, True
     path = base + '.json'
     json.dump({'kind': 'obligation', 'property': pid, 'obligation': _ob(r, f), 'verifier_output': r.raw[-12000:],
                'unit_spec': spec, 'tier': tier, 'note': 'no-failing-input-found'}, open(path, 'w'), indent=1)
@@ -240,8 +258,8 @@ PROPERTIES['C10'] = {
     'unchecked': ['"dropped normally after the panic" is argued from the refusal preceding ManuallyDrop::new, not executed (no unwinding in Kani)'],
 }
 
-V_BUILDER = {'kind': 'verus', 'unit': 'builder'}
-V_NATIVE = {'kind': 'verus', 'unit': 'native'}
+V_BUILDER = {'kind': 'verus', 'unit': 'builder', 'cex': 'bx-builder'}
+V_NATIVE = {'kind': 'verus', 'unit': 'native', 'cex': 'bx-resolver'}
 
 PROPERTIES['C12'] = {
     'level': 'model_checking',
